@@ -1752,3 +1752,108 @@ def c09_diskstats_search(meta, seed, budget):
                 lines.append([8, 0, nm] + [c() for _ in range(layout - 3)])
         yield {"lines": lines, "whole_disks": [nm for nm in chosen if not nm[-1].isdigit() or nm in (
             "nvme0n1", "nvme0n10", "md1", "md10", "dm-1", "dm-10", "loop0", "sr0", "cciss/c0d0")]}
+
+
+# ---------------------------------------------------------------------------
+# C13: generated smaps files
+# ---------------------------------------------------------------------------
+
+SMAPS_KEYS = ["Size", "KernelPageSize", "MMUPageSize", "Rss", "Pss", "Pss_Dirty", "Shared_Clean", "Shared_Dirty",
+              "Private_Clean", "Private_Dirty", "Referenced", "Anonymous", "LazyFree", "AnonHugePages", "Swap", "SwapPss"]
+
+
+def gen_mapping(rng, path):
+    vals = {k: rng.choice([0, 4, 12, rng.randrange(0, 5000), rng.randrange(0, 2 ** 30)]) for k in SMAPS_KEYS}
+    opt = {}
+    if rng.random() < 0.4:
+        opt["Private_Hugetlb"] = rng.choice([0, 2048])
+    addr = "%x-%x" % (rng.randrange(2 ** 40), rng.randrange(2 ** 40, 2 ** 47))
+    perms = rng.choice(["r--p", "rw-p", "r-xp", "rw-s"])
+    hdr = f"{addr} {perms} 00000000 fd:01 {rng.randrange(10 ** 6)} {path}".rstrip() + ("\n" if path else " \n")
+    if not path:
+        hdr = f"{addr} {perms} 00000000 00:00 0 \n"
+    body = "".join(f"{k}:{' ' * (16 - len(k))}{v} kB\n" for k, v in list(vals.items()) + list(opt.items()))
+    if rng.random() < 0.7:
+        body += "THPeligible:    0\n" if rng.random() < 0.5 else ""
+        body += "VmFlags: rd ex mr mw me dw\n"
+    vals.update(opt)
+    shown = path or "[anon]"
+    if shown.endswith(" (deleted)") and not os.path.exists(shown):
+        shown = shown[:-10]        # a stale ' (deleted)' suffix is removed (as for exe()/cwd())
+    return hdr + body, {"addr": addr, "perms": perms, "path": shown, "vals": vals}
+
+
+@runner("c13:smaps")
+def c13_smaps(model, meta):
+    import psutil
+    from psutil import _pslinux
+    import random
+    rng = random.Random(model.get("seed", 0))
+    paths = model.get("paths", ["/usr/lib/libc.so.6"])
+    text, maps = "", []
+    for p in paths:
+        t, m = gen_mapping(rng, p)
+        text += t
+        maps.append(m)
+    priv = sum(m["vals"]["Private_Clean"] + m["vals"]["Private_Dirty"] + m["vals"].get("Private_Hugetlb", 0) for m in maps)
+    pss = sum(m["vals"]["Pss"] for m in maps)
+    swap = sum(m["vals"]["Swap"] for m in maps)
+    swappss = sum(m["vals"]["SwapPss"] for m in maps)
+    rollup = ("00400000-7ffc00021000 ---p 00000000 00:00 0 [rollup]\nRss: %d kB\nPss: %d kB\nPss_Dirty: 1 kB\nPss_Anon: 2 kB\n"
+              "Pss_File: 3 kB\nShared_Clean: 0 kB\nPrivate_Clean: %d kB\nPrivate_Dirty: %d kB\nPrivate_Hugetlb: %d kB\n"
+              "Swap: %d kB\nSwapPss: %d kB\nLocked: 0 kB\n") % (
+        sum(m["vals"]["Rss"] for m in maps), pss, sum(m["vals"]["Private_Clean"] for m in maps),
+        sum(m["vals"]["Private_Dirty"] for m in maps), sum(m["vals"].get("Private_Hugetlb", 0) for m in maps), swap, swappss)
+    pid = 5100
+    problems = []
+    F = stat_fields(random.Random(6))
+    files = {f"{pid}/smaps": text.encode(), f"{pid}/smaps_rollup": rollup.encode(), f"{pid}/stat": build_stat(pid, b"x", F),
+             f"{pid}/statm": b"100 50 10 5 0 20 0\n"}
+    want3 = (priv * 1024, pss * 1024, swap * 1024)
+    with fake_procfs(files):
+        p = _pslinux.Process(pid)
+        fp = psutil.Process(pid)
+        try:
+            if maps:
+                a = p._parse_smaps()
+                if tuple(a) != want3:
+                    problems.append(f"_parse_smaps() == {tuple(a)}, per-mapping sums {want3}")
+            b = p._parse_smaps_rollup()
+            if tuple(b) != want3:
+                problems.append(f"_parse_smaps_rollup() == {tuple(b)}, expected {want3}")
+            full = p.memory_full_info()
+            if (full.uss, full.pss, full.swap) != want3:
+                problems.append(f"memory_full_info() uss/pss/swap == {(full.uss, full.pss, full.swap)}, expected {want3}")
+            fields = ["Rss", "Size", "Pss", "Shared_Clean", "Shared_Dirty", "Private_Clean", "Private_Dirty", "Referenced",
+                      "Anonymous", "Swap"]
+            ung = fp.memory_maps(grouped=False)
+            want_u = [(m["addr"], m["perms"], m["path"]) + tuple(m["vals"][k] * 1024 for k in fields) for m in maps]
+            if [tuple(x) for x in ung] != want_u:
+                problems.append(f"memory_maps(grouped=False) differs: {[tuple(x)[:3] for x in ung]} vs {[w[:3] for w in want_u]}")
+            grp = fp.memory_maps(grouped=True)
+            order = []
+            sums = {}
+            for m in maps:
+                if m["path"] not in sums:
+                    order.append(m["path"])
+                    sums[m["path"]] = [0] * len(fields)
+                for i, k in enumerate(fields):
+                    sums[m["path"]][i] += m["vals"][k] * 1024
+            want_g = [(pth,) + tuple(sums[pth]) for pth in order]
+            if sorted(tuple(x) for x in grp) != sorted(want_g):
+                problems.append("memory_maps(grouped=True) differs from the per-path sums")
+        except Exception as e:  # noqa: BLE001
+            import traceback
+            problems.append("raised " + traceback.format_exc()[-300:])
+    return {"env": {}, "result": problems[:3], "exc": None, "verdict": bool(problems), "paths": paths}
+
+
+@search("c13:smaps")
+def c13_smaps_search(meta, seed, budget):
+    import random
+    rng = random.Random(seed)
+    pool = ["/usr/lib/libc.so.6", "", "[heap]", "[stack]", "/tmp/my file: x", "/tmp/gone (deleted)", "/a:b/c", "/usr/lib/libc.so.6",
+            "[vdso]", "/dev/shm/x y (deleted)"]
+    for n in range(budget):
+        k = rng.randrange(0 if n % 10 == 0 else 1, 5)
+        yield {"seed": seed * 100003 + n, "paths": [rng.choice(pool) for _ in range(k)]}
